@@ -10,6 +10,28 @@ COMMON_ASSUMPTIONS = [
     "one monomorphisation: Graph<Nm, u8> with Nm a u8 newtype (graphrs has no specialisation on T)",
 ]
 
+import os
+VERIF = os.path.dirname(os.path.dirname(os.path.abspath(__file__)))
+
+CLAIMED = ["C01", "C02", "C03", "C09", "C16"]
+NOT_APPLICABLE = {
+    "C07": "schedules / threads are not expressible in Kani/CBMC (no model of rayon's worker threads, work stealing or atomics-based deques); a sequential stub of the parallel iterator would assume the property instead of checking it",
+    "C13": "termination of Louvain's `while nb_moves > 0` / `while improvement` loops is the property; bounded model checking can only confirm a fixed unwinding, and one sweep re-enters modularity -> get_subgraph -> new_from_nodes_and_edges per community over floats, measured beyond the memory cap (three policy-dependent add_edge calls already exceed 24 GB)",
+    "C14": "the weight clause quantifies over all f64 bit patterns through Display (Grisu/Dragon) and str::parse::<f64> (Eisel-Lemire: 64x64->128 multiplications on symbolic digits) and the name clause over quick-xml's escaper on buffers whose length depends on the symbolic bytes; neither can be bit-blasted within reach and no non-circular contract stub exists",
+    "C04": "not claimed yet: harnesses under construction",
+    "C05": "not claimed yet: harnesses under construction",
+    "C06": "not claimed yet: harnesses under construction",
+    "C08": "not claimed yet: harnesses under construction",
+    "C10": "not claimed yet: harnesses under construction",
+    "C11": "not claimed yet: harnesses under construction",
+    "C12": "not claimed yet: harnesses under construction",
+    "C15": "not claimed yet: harnesses under construction",
+    "C17": "not claimed yet: harnesses under construction",
+    "C18": "not claimed yet: harnesses under construction",
+    "C19": "not claimed yet: harnesses under construction",
+    "C20": "not claimed yet: harnesses under construction",
+}
+
 def H(name, build, what, tier="quick", covers=(), **kw):
     d = {"name": name, "build": build, "what": what, "tier": tier, "covers": list(covers)}
     d.update(kw)
@@ -35,6 +57,18 @@ PROPS["C01"] = {
     "jobs": 10,
 }
 
+# ---------------------------------------------------------------- C02
+ATTACH["C02"] = {"ac": [("src/graph/mod.rs", "model.rs"), ("src/graph/query.rs", "query_ac.rs")]}
+PROPS["C02"] = {
+    "harnesses": [
+        H(name, "ac", what, tier=tier, covers=covers, bounds="3 nodes (+1 absent name), <=3 stored edges, unwind 9", timeout=1200)
+        for (name, call, tier, covers, what) in _gen.c02_cases()
+    ],
+    "outside": "graphs with more than 3 nodes / 3 edges; the history quantifier is discharged by C01's step harnesses (every mutation preserves the index coherence these readers rely on) plus the build_direct-vs-history harnesses here",
+    "assumptions": ["graphs are produced by /verif/harness/model.rs::build_direct, itself checked against real add_node/add_edge histories by the c02_build_* harnesses"],
+    "jobs": 12,
+}
+
 # ---------------------------------------------------------------- C03
 ATTACH["C03"] = {
     "real": [("src/graph/creation.rs", "creation_real.rs")],
@@ -52,6 +86,99 @@ PROPS["C03"] = {
     ],
     "outside": "more than 3 nodes / 3 edges per scenario; histories mixing weighted and unweighted edges (excluded by the property's quantifier)",
     "jobs": 10,
+}
+
+# ---------------------------------------------------------------- C09
+ATTACH["C09"] = {"ac": [("src/graph/mod.rs", "model.rs"), ("src/graph/degree.rs", "degree_ac.rs")]}
+PROPS["C09"] = {
+    "harnesses": [
+        H(name, "ac", what, tier=tier, covers=covers, bounds="3 nodes, <=3 stored edges (self-loop, parallel edges in both orientations, 3-cycle), unwind 9", timeout=1200)
+        for (name, call, tier, covers, what) in _gen.c09_cases()
+    ],
+    "outside": "the sparse adjacency matrix (feature adjacency_matrix pulls in sprs; not encoded); graphs with more than 3 nodes; non-integer weights for the weighted identities (float sums are order dependent)",
+    "assumptions": ["graphs are produced by build_direct (validated by the c02_build_* harnesses)"],
+    "jobs": 12,
+}
+
+# ---------------------------------------------------------------- C10
+ATTACH["C10"] = {"ac": [("src/graph/mod.rs", "model.rs"), ("src/algorithms/components/mod.rs", "components_ac.rs")]}
+PROPS["C10"] = {
+    "harnesses": [
+        H(name, "ac", what, tier=tier, covers=covers, bounds="3 nodes, topology symbolic (every subset of the potential edges), unwind 9", timeout=1500)
+        for (name, call, tier, covers, what) in _gen.c10_cases()
+    ],
+    "outside": "graphs with more than 3 nodes (long cycles, nested SCCs of size > 3); hash-iteration orders other than the shim's slot order",
+    "assumptions": ["graphs are produced by build_direct (validated by the c02_build_* harnesses)"],
+    "jobs": 8,
+}
+
+# ---------------------------------------------------------------- C12
+ATTACH["C12"] = {"ac": [("src/graph/mod.rs", "model.rs"), ("src/algorithms/community/partitions.rs", "partitions_ac.rs")]}
+_c12_ip = "3-node graph, family of %d sets over {2,0,1,3} given by a symbolic membership matrix (2^%d families incl. overlapping, incomplete and foreign-node ones): is_partition vs the set-theoretic definition"
+PROPS["C12"] = {
+    "harnesses": [
+        H("c12_ispart_u_2sets", "ac", _c12_ip % (2, 8), covers=["a true partition", "not a partition"], bounds="3 nodes, 2 sets", timeout=1200),
+        H("c12_ispart_d_2sets", "ac", _c12_ip % (2, 8) + " (directed)", tier="thorough", covers=["a true partition", "not a partition"], bounds="3 nodes, 2 sets", timeout=1200),
+        H("c12_ispart_u_3sets", "ac", _c12_ip % (3, 12), tier="thorough", covers=["a true partition", "not a partition"], bounds="3 nodes, 3 sets", timeout=1800),
+        H("c12_ispart_u_1set", "ac", _c12_ip % (1, 4), covers=["a true partition", "not a partition"], bounds="3 nodes, 1 set", timeout=900),
+        H("c12_modguard_u_2sets", "ac", "modularity returns NotAPartition exactly for the non-partitions (symbolic 2x4 membership matrix), undirected", tier="thorough", covers=["a true partition"], bounds="3 nodes, 2 sets", timeout=1800),
+        H("c12_modguard_d_2sets", "ac", "same, directed", tier="thorough", covers=["a true partition"], bounds="3 nodes, 2 sets", timeout=1800),
+    ] + [
+        H(n, "ac", "modularity value vs Newman's formula: %s; integer weights 1..8 symbolic, resolution in {0.5,1,2} symbolic; tolerance 1e-9" % w, tier=tr, covers=["reached end"], bounds="3 nodes, <=3 edges", timeout=1500)
+        for (n, w, tr) in [
+            ("c12_modval_us_s0_p0_w", "undirected path, partition {2,0},{1}, weighted", "quick"),
+            ("c12_modval_ds_s0_p0_w", "directed path, partition {2,0},{1}, weighted", "quick"),
+            ("c12_modval_us_s1_p0_u", "undirected with a self-loop, unweighted", "quick"),
+            ("c12_modval_ds_s1_p1_w", "directed with a self-loop, singletons, weighted", "thorough"),
+            ("c12_modval_um_s2_p0_w", "undirected multi-edge (3 parallel edges), weighted", "quick"),
+            ("c12_modval_dm_s2_p2_w", "directed multi-edge, single community, weighted", "thorough"),
+            ("c12_modval_us_s5_p0_w", "undirected 3-cycle, weighted", "thorough"),
+            ("c12_modval_ds_s5_p1_u", "directed 3-cycle, singletons, unweighted", "thorough"),
+        ]
+    ],
+    "outside": "graphs with more than 3 nodes; resolutions other than 0.5/1/2; f64::powf is replaced by x*x for exponent 2 (Kani models powf nondeterministically); modularity compared within 1e-9",
+    "assumptions": ["f64::powf(x, 2.0) is stubbed as x*x", "graphs are produced by build_direct (validated by the c02_build_* harnesses)"],
+    "jobs": 8,
+}
+
+# ---------------------------------------------------------------- C15
+ATTACH["C15"] = {"ac": [("src/graph/mod.rs", "model.rs"), ("src/graph/convert.rs", "convert_ac.rs")]}
+PROPS["C15"] = {
+    "harnesses": [
+        H(name, "ac", what, tier=tier, covers=covers, bounds="3 nodes, <=3 stored edges in the source graph, unwind 9", timeout=1500)
+        for (name, call, tier, covers, what) in _gen.c15_cases()
+    ],
+    "outside": "source graphs with more than 3 nodes / 3 edges; subsets S given symbolically (the generator enumerates 6 subsets incl. absent names and the empty set); non-permissive policy fields of the source specs (they are inherited by the result and only matter for later mutations, C01)",
+    "assumptions": ["source graphs are produced by build_direct (validated by the c02_build_* harnesses)"],
+    "jobs": 10,
+}
+
+# ---------------------------------------------------------------- C16
+import native as _native
+ATTACH["C16"] = {"ac": [("src/generators/random.rs", "random_real.rs"), ("src/generators/classic.rs", "classic_ac.rs")]}
+_pairs_u3 = ["pair 1-0 occurs", "pair 2-0 occurs", "pair 2-1 occurs", "empty graph occurs", "complete graph occurs"]
+_pairs_d3 = _pairs_u3 + ["pair 0-2 occurs", "pair 0-1 occurs", "pair 1-2 occurs"]
+PROPS["C16"] = {
+    "harnesses": [
+        H("c16_gnp_undirected_n3", "ac", "fast_gnp_random_graph_undirected(3, p, rng): p any f64 in (0,1), every RNG output arbitrary, ln by sign contract; pair list in range / no self-loop / lower triangle / strictly increasing; every pair, the empty and the complete graph reachable; no overflow",
+          covers=["pair 1-0 occurs", "pair 2-0 occurs", "pair 2-1 occurs", "empty graph occurs", "complete graph occurs"], cover_is_property=True, params={"n": 3, "directed": False}, replay=_native.replay_gnp, bounds="n=3, <=4 draws (unwind 5)", timeout=1500),
+        H("c16_gnp_directed_n2", "ac", "fast_gnp_random_graph_directed(2, p, rng): as above for ordered pairs",
+          covers=["pair 1-0 occurs", "pair 0-1 occurs", "empty graph occurs", "complete graph occurs"], cover_is_property=True, params={"n": 2, "directed": True}, replay=_native.replay_gnp, bounds="n=2, <=3 draws (unwind 5)", timeout=1500),
+        H("c16_gnp_undirected_n2", "ac", "n=2 undirected", covers=["pair 1-0 occurs", "empty graph occurs"], cover_is_property=True,
+          params={"n": 2, "directed": False}, replay=_native.replay_gnp, bounds="n=2 (unwind 5)", timeout=900),
+        H("c16_guard_rejects_outside_unit_interval", "ac", "fast_gnp_random_graph(n, p, directed, seed) for every f64 p outside (0,1) incl. NaN/inf, n in 0..=300, any seed: InvalidArgument",
+          covers=["probability one or more", "probability zero or less"], bounds="unwind 5", timeout=900),
+        H("c16_complete_n0", "ac", "complete_graph(0, directed): directed symbolic; node set, edge count, every pair joined, no self-loops", covers=["directed", "undirected"], bounds="n=0", timeout=600),
+        H("c16_complete_n1", "ac", "complete_graph(1, directed)", covers=["directed", "undirected"], bounds="n=1", timeout=600),
+        H("c16_complete_n2", "ac", "complete_graph(2, directed): measured > 15 min (itertools permutations/combinations over symbolic `directed`), 'full' tier only", tier="full", covers=["directed", "undirected"], bounds="n=2", timeout=3000),
+        H("c16_complete_n3", "ac", "complete_graph(3, directed): > 24 GB, 'full' tier only", tier="full", covers=["directed", "undirected"], bounds="n=3", timeout=2400),
+        H("c16_gnp_directed_n3", "ac", "n=3 directed (7 draws, unwind 8): measured > 24 GB, kept in the 'full' tier only", tier="full",
+          covers=["pair 1-0 occurs", "pair 0-2 occurs"], cover_is_property=True, params={"n": 3, "directed": True}, replay=_native.replay_gnp, bounds="n=3, unwind 8", timeout=3000),
+    ],
+    "outside": "n > 4; the statistical clause (mean edge count over seeds) is replaced by reachability of every pair and strict monotonicity of the emitted sequence; karate_club_graph (a constant); complete_graph is checked under C16's K-ac harness",
+    "assumptions": ["f64::ln is replaced by its sign contract on (0,1] (ln(1)=0, negative and >= -745.2 otherwise)", "Graph::add_node / add_edge_tuples are stubbed (recording the pair list); the real mutation code is the subject of C01",
+                    "counterexamples are confirmed by a native seeded sweep of the public fast_gnp_random_graph, not value-by-value"],
+    "jobs": 4,
 }
 
 def attachments(pid, build):
